@@ -46,7 +46,8 @@ def check(run):
         a = base(); a["identityPathIndex"] = [0] * 20; a["identityPathIndex"][j] = 1; A.append(a)
     for pat in ([0] * 20, [1] * 20):
         a = base(); a["identityPathIndex"] = list(pat); A.append(a)
-    for lim, mid in [(1, 0), (2, 1), (2**16, 0), (2**16, 2**16 - 1), (100, 99), (65535, 65534)]:
+    # (the circuit's 16-bit range check accepts every limit in (messageId, messageId + 2^16]: limits ABOVE 2^16 are valid for large ids)
+    for lim, mid in [(1, 0), (2, 1), (2**16, 0), (2**16, 2**16 - 1), (100, 99), (65535, 65534), (65537, 65535), (65537, 1), (100000, 40000), (131071, 65535), (65536 + 7, 7)]:
         a = base(); a["userMessageLimit"] = [lim]; a["messageId"] = [mid]; A.append(a)
     # every bit of the 16-bit range check: message ids with exactly one bit set / cleared, and limits just above them
     for k in (range(16) if not quick else rng.sample(range(16), 6)):
